@@ -6,8 +6,8 @@
    POSTCONDITION).  Trace kinds:
      "ok"    the flush succeeded on SQLite (foreign_keys=ON): every statement must be enabled, and the rows ConstraintDB ends with
              must equal the rows read back from SQLite (calibration of ConstraintDB's effect);
-     "fail"  SQLite raised IntegrityError at the LAST recorded statement: every earlier statement must be enabled, the last must NOT
-             be enabled (calibration of the guards against SQLite), and - when the harness supplied the intended final rows - that
+     "fail"  SQLite raised IntegrityError in the LAST recorded batch: every statement of the earlier batches must be enabled, some
+             statement of the last batch must NOT be enabled (calibration of the guards against SQLite), and - when the harness supplied the intended final rows - that
              final state must itself violate a constraint: C31's antecedent ("whose final state satisfies the schema's foreign-key and
              NOT NULL constraints") is evaluated here, on the specification's terms, before a failed flush counts. *)
 EXTENDS ConstraintDB, Json, IOUtils
@@ -26,16 +26,19 @@ EvEnabled(S, R, e) == CASE e.op = "INSERT" -> CanInsert(S, R, [t |-> e.t, pk |->
 EvApply(R, e) == CASE e.op = "INSERT" -> DoInsert(R, [t |-> e.t, pk |-> e.pk, fk |-> FnOf(e.cols)])
                    [] e.op = "UPDATE" -> DoUpdate(R, e.t, e.pk, FnOf(e.cols))
                    [] e.op = "DELETE" -> DoDelete(R, e.t, e.pk)
-LastOfFail == Traces[tid].kind = "fail" /\ l = Len(Traces[tid].ev)
+\* a failing flush: statements are consumed while enabled; the run must get stuck inside the LAST batch (one executemany call =
+\* one batch: the DBAPI does not say which parameter set failed) - that is the calibration of the guards against SQLite
+InLastBatch == Ev.batch = Traces[tid].ev[Len(Traces[tid].ev)].batch
 Consume ==
    /\ tid <= N /\ l <= Len(Traces[tid].ev)
-   /\ IF LastOfFail THEN ~EvEnabled(SchemaOf(tid), rows, Ev) /\ UNCHANGED rows
-      ELSE EvEnabled(SchemaOf(tid), rows, Ev) /\ rows' = EvApply(rows, Ev)
-   /\ l' = l + 1 /\ UNCHANGED tid
-EndOk == IF Traces[tid].kind = "ok" THEN rows = RowsOf(Traces[tid].final)
-         ELSE (Traces[tid].has_intended => ~Consistent(SchemaOf(tid), RowsOf(Traces[tid].intended)))
+   /\ IF EvEnabled(SchemaOf(tid), rows, Ev) THEN rows' = EvApply(rows, Ev) /\ l' = l + 1
+      ELSE Traces[tid].kind = "fail" /\ InLastBatch /\ UNCHANGED rows /\ l' = Len(Traces[tid].ev) + 2
+   /\ UNCHANGED tid
+\* l = Len+1: every statement was enabled;  l = Len+2: a failing flush got stuck in its last batch
+EndOk == IF Traces[tid].kind = "ok" THEN l = Len(Traces[tid].ev) + 1 /\ rows = RowsOf(Traces[tid].final)
+         ELSE l = Len(Traces[tid].ev) + 2 /\ (Traces[tid].has_intended => ~Consistent(SchemaOf(tid), RowsOf(Traces[tid].intended)))
 NextTrace ==
-   /\ tid <= N /\ l = Len(Traces[tid].ev) + 1
+   /\ tid <= N /\ l > Len(Traces[tid].ev)
    /\ EndOk
    /\ tid' = tid + 1 /\ l' = 1
    /\ rows' = IF tid + 1 <= N THEN RowsOf(Traces[tid + 1].init) ELSE {}
@@ -46,10 +49,11 @@ Progress == TLCSet(1, <<tid, l>>)
 StaysConsistent == tid <= N => Consistent(SchemaOf(tid), rows)
 Why(p) == LET t == Traces[p[1]] IN
    IF p[2] <= Len(t.ev) THEN
-      (IF t.kind = "fail" /\ p[2] = Len(t.ev) THEN "calibration: SQLite rejected a statement that ConstraintDB enables"
+      (IF t.kind = "fail" THEN "calibration: SQLite accepted a statement (it failed only in a later batch) that ConstraintDB does not enable"
        ELSE "C31: statement is not enabled in ConstraintDB (references a row not yet inserted / deletes a row still referenced / NULL in NOT NULL / duplicate key)")
-   ELSE (IF t.kind = "ok" THEN "calibration: rows after the flush differ from ConstraintDB's"
-         ELSE "C31: the flush failed although the intended final state satisfies every constraint")
+   ELSE IF t.kind = "ok" THEN "calibration: rows after the flush differ from ConstraintDB's"
+   ELSE IF p[2] = Len(t.ev) + 1 THEN "calibration: SQLite rejected a statement although ConstraintDB enables every recorded statement"
+   ELSE "C31: the flush failed although the intended final state satisfies every constraint"
 AllAccepted == LET p == TLCGet(1) IN
    IF p[1] = N + 1 THEN TRUE
    ELSE (PrintT(ToJson([rejected |-> Traces[p[1]].id, at |-> p[2], why |-> Why(p)])) /\ FALSE)
